@@ -37,6 +37,8 @@ def init_forms(r, R, C, maxv, trough):
         out.append({"form": "2d", "vals": [vol() for _ in range(n)], "ncols": C})
         # a table without any symmetry (row-major numbering): orientation mistakes show on square plates too
         out.append({"form": "2d", "vals": [i % (maxv + 1) for i in range(n)], "ncols": C})
+        out.append({"form": "2d", "vals": [i % (maxv + 1) for i in range(n)], "ncols": C, "order": "F"})
+        out.append({"form": "2d", "vals": [(3 * i) % (maxv + 1) for i in range(n)], "ncols": C, "order": "T"})
         out.append({"form": "flat", "vals": [vol() for _ in range(n + 1)]})  # wrong size
         if n > 1:
             out.append({"form": "2d", "vals": [vol() for _ in range(n - C if n > C else n + C)], "ncols": C})  # wrong number of rows
